@@ -6,7 +6,24 @@ import Mathlib.Algebra.Order.Field.Basic
 import Mathlib.Algebra.Order.Field.Rat
 import Mathlib.Algebra.Order.AbsoluteValue.Basic
 /-!
-Characteristic properties of `Yaql.FloatRound.roundRat`, for all inputs.
+Characteristic properties of `Yaql.FloatRound.roundRat num den` - the correctly rounded conversion of the exact
+rational `num / den` to an IEEE-754 binary64 value - **for all inputs**.  A finite double `w` denotes
+`valQ z = z / 2^1074` where `decode w = .fin z`.
+
+* `roundRat_total` - a result (`ok` or `overflow`) for every `den > 0`; `roundRat _ 0 = zeroDen`.  Termination: the
+  definition is a closed arithmetic expression (`/`, `%`, `log2`, shifts), no recursion.
+* `roundRat_exact` (+ `_int`, `roundRat_exact_value`, `roundRat_of_rep`, `roundRat_int_small`) - a rational that is the
+  value of a finite double (other than the bit pattern `-0.0`) is returned unchanged, bit for bit.
+* `roundRat_nearest` - the value of the result is at least as near to `num / den` as the value of any finite double;
+  `sval_nearest` (on scaled integers, also against every 53-bit number with an unbounded exponent).
+* `roundRat_tie_even` - if another binary64 number is equally near, the lowest bit of the result is 0.
+* `roundRat_overflow_iff`(`_rat`) - overflow exactly when `|num / den| ≥ 2^1024 - 2^970`.
+* `roundRat_mono`(`_rat`) - monotone in the rational, in the order of doubles (overflow = the infinities).
+* `roundRat_neg` - `round (-q)` is the mirror image (sign bit flipped) for `q ≠ 0`.
+* `roundRat_congr`(`_rat`), `roundRat_scale` - the result depends on the rational only.
+* `decode_encodeScaled`, `encodeScaled_decode`, `decode_rep` - bit patterns of finite doubles and their exact values
+  (`M * 2^s`, `M < 2^53`, `s ≤ 2045`, scaled by `2^1074`) are in bijection apart from the two zeros.
+* at the end: 195 kernel-evaluated test cases against CPython (examples only).
 -/
 namespace Yaql.Props.FloatRound
 open Yaql.FloatRound
@@ -1219,5 +1236,250 @@ theorem roundRat_overflow_iff_rat (num : Int) (den : Nat) (hd : 0 < den) :
   · intro h
     have h3 : (A - B) * D * S ≤ N * S := mul_le_mul_of_nonneg_right h (le_of_lt hSp)
     rw [key] at h3; linarith
+
+/-! ## consequences used by the models -/
+
+/-- exactness, constructive form: a rational equal to the finite magnitude `z` (scaled) rounds to the double with
+    that magnitude and the sign of the numerator -/
+theorem roundRat_of_rep (num : Int) (den : Nat) (hd : 0 < den) (z : Nat) (hz : Rep z)
+    (h : scale * num.natAbs = z * den) :
+    roundRat num den = .ok (encodeScaled (decide (num < 0)) z) ∧
+      decode (encodeScaled (decide (num < 0)) z) = .fin (if num < 0 then -(z : Int) else z) := by
+  have hmag := roundMag_exact num.natAbs den hd z hz.repU h
+  constructor
+  · unfold roundRat finish
+    rw [if_neg (by omega), hmag, if_neg (by have := rep_log2 _ hz; omega)]
+  · rw [decode_encodeScaled _ _ hz]
+    by_cases hn : num < 0 <;> simp [hn]
+
+set_option exponentiation.threshold 2200 in
+/-- integers up to `2^53` in magnitude are doubles: `float(n)` is exact there -/
+theorem roundRat_int_small (n : Int) (h : n.natAbs ≤ 2 ^ 53) :
+    ∃ w, roundRat n 1 = .ok w ∧ decode w = .fin (n * scale) := by
+  have hz : Rep (n.natAbs * scale) := by
+    rcases Nat.lt_or_ge n.natAbs (2 ^ 53) with h1 | h1
+    · exact ⟨n.natAbs, 1074, h1, by decide, rfl⟩
+    · have e : n.natAbs = 2 ^ 53 := Nat.le_antisymm h h1
+      refine ⟨2 ^ 52, 1075, by decide, by decide, ?_⟩
+      rw [e]; unfold scale
+      rw [← Nat.pow_add, ← Nat.pow_add]
+  obtain ⟨h1, h2⟩ := roundRat_of_rep n 1 (by decide) _ hz (by rw [Nat.mul_one, Nat.mul_comm])
+  refine ⟨_, h1, ?_⟩
+  rw [h2]
+  by_cases hn : n < 0
+  · rw [if_pos hn]; congr 1
+    have : (n.natAbs : Int) = -n := by omega
+    rw [Nat.cast_mul, this]; ring
+  · rw [if_neg hn]; congr 1
+    have : (n.natAbs : Int) = n := by omega
+    rw [Nat.cast_mul, this]
+
+/-- a finite result is never an infinity or a NaN, an overflow never a finite value: `Rounded.ext` of a result
+    is `.fin` exactly for `.ok` -/
+theorem roundRat_ok_fin {num : Int} {den : Nat} {w : UInt64} (h : roundRat num den = .ok w) :
+    ∃ z, decode w = .fin z := ⟨_, roundRat_decode h⟩
+
+/-! ## tests (examples only; nothing depends on them): 195 inputs against CPython's `int / int`
+(boundary cases: powers of two +-1, halfway cases, subnormals, the overflow threshold, decimals, random big rationals),
+generated once by a Python script and checked by kernel evaluation -/
+
+def tests : List (Int × Nat × Rounded) := [
+  (1, 1, .ok 0x3FF0000000000000),
+  (-1, 1, .ok 0xBFF0000000000000),
+  (1, 1, .ok 0x3FF0000000000000),
+  (2, 1, .ok 0x4000000000000000),
+  (-2, 1, .ok 0xC000000000000000),
+  (1, 2, .ok 0x3FE0000000000000),
+  (3, 1, .ok 0x4008000000000000),
+  (-3, 1, .ok 0xC008000000000000),
+  (1, 3, .ok 0x3FD5555555555555),
+  (3, 1, .ok 0x4008000000000000),
+  (-3, 1, .ok 0xC008000000000000),
+  (1, 3, .ok 0x3FD5555555555555),
+  (4, 1, .ok 0x4010000000000000),
+  (-4, 1, .ok 0xC010000000000000),
+  (1, 4, .ok 0x3FD0000000000000),
+  (5, 1, .ok 0x4014000000000000),
+  (-5, 1, .ok 0xC014000000000000),
+  (1, 5, .ok 0x3FC999999999999A),
+  (4503599627370495, 1, .ok 0x432FFFFFFFFFFFFE),
+  (-4503599627370495, 1, .ok 0xC32FFFFFFFFFFFFE),
+  (1, 4503599627370495, .ok 0x3CB0000000000001),
+  (4503599627370496, 1, .ok 0x4330000000000000),
+  (-4503599627370496, 1, .ok 0xC330000000000000),
+  (1, 4503599627370496, .ok 0x3CB0000000000000),
+  (4503599627370497, 1, .ok 0x4330000000000001),
+  (-4503599627370497, 1, .ok 0xC330000000000001),
+  (1, 4503599627370497, .ok 0x3CAFFFFFFFFFFFFE),
+  (9007199254740991, 1, .ok 0x433FFFFFFFFFFFFF),
+  (-9007199254740991, 1, .ok 0xC33FFFFFFFFFFFFF),
+  (1, 9007199254740991, .ok 0x3CA0000000000001),
+  (9007199254740992, 1, .ok 0x4340000000000000),
+  (-9007199254740992, 1, .ok 0xC340000000000000),
+  (1, 9007199254740992, .ok 0x3CA0000000000000),
+  (9007199254740993, 1, .ok 0x4340000000000000),
+  (-9007199254740993, 1, .ok 0xC340000000000000),
+  (1, 9007199254740993, .ok 0x3C9FFFFFFFFFFFFF),
+  (18014398509481983, 1, .ok 0x4350000000000000),
+  (-18014398509481983, 1, .ok 0xC350000000000000),
+  (1, 18014398509481983, .ok 0x3C90000000000000),
+  (18014398509481984, 1, .ok 0x4350000000000000),
+  (-18014398509481984, 1, .ok 0xC350000000000000),
+  (1, 18014398509481984, .ok 0x3C90000000000000),
+  (18014398509481985, 1, .ok 0x4350000000000000),
+  (-18014398509481985, 1, .ok 0xC350000000000000),
+  (1, 18014398509481985, .ok 0x3C90000000000000),
+  (9223372036854775807, 1, .ok 0x43E0000000000000),
+  (-9223372036854775807, 1, .ok 0xC3E0000000000000),
+  (1, 9223372036854775807, .ok 0x3C00000000000000),
+  (9223372036854775808, 1, .ok 0x43E0000000000000),
+  (-9223372036854775808, 1, .ok 0xC3E0000000000000),
+  (1, 9223372036854775808, .ok 0x3C00000000000000),
+  (9223372036854775809, 1, .ok 0x43E0000000000000),
+  (-9223372036854775809, 1, .ok 0xC3E0000000000000),
+  (1, 9223372036854775809, .ok 0x3C00000000000000),
+  (18446744073709551615, 1, .ok 0x43F0000000000000),
+  (-18446744073709551615, 1, .ok 0xC3F0000000000000),
+  (1, 18446744073709551615, .ok 0x3BF0000000000000),
+  (18446744073709551616, 1, .ok 0x43F0000000000000),
+  (-18446744073709551616, 1, .ok 0xC3F0000000000000),
+  (1, 18446744073709551616, .ok 0x3BF0000000000000),
+  (18446744073709551617, 1, .ok 0x43F0000000000000),
+  (-18446744073709551617, 1, .ok 0xC3F0000000000000),
+  (1, 18446744073709551617, .ok 0x3BF0000000000000),
+  (1267650600228229401496703205375, 1, .ok 0x4630000000000000),
+  (-1267650600228229401496703205375, 1, .ok 0xC630000000000000),
+  (1, 1267650600228229401496703205375, .ok 0x39B0000000000000),
+  (1267650600228229401496703205376, 1, .ok 0x4630000000000000),
+  (-1267650600228229401496703205376, 1, .ok 0xC630000000000000),
+  (1, 1267650600228229401496703205376, .ok 0x39B0000000000000),
+  (1267650600228229401496703205377, 1, .ok 0x4630000000000000),
+  (-1267650600228229401496703205377, 1, .ok 0xC630000000000000),
+  (1, 1267650600228229401496703205377, .ok 0x39B0000000000000),
+  (9979201547673599058281863565184192830337256302177287707512736212186059459344820328924789827463178505446712234220962476219862189941967968303695858991424157101600028364755428382587688607221814935913266783722719619966654052275604351944444276342240220787535604534378780208211792476151720049639423, 1, .ok 0x7C90000000000000),
+  (-9979201547673599058281863565184192830337256302177287707512736212186059459344820328924789827463178505446712234220962476219862189941967968303695858991424157101600028364755428382587688607221814935913266783722719619966654052275604351944444276342240220787535604534378780208211792476151720049639423, 1, .ok 0xFC90000000000000),
+  (1, 9979201547673599058281863565184192830337256302177287707512736212186059459344820328924789827463178505446712234220962476219862189941967968303695858991424157101600028364755428382587688607221814935913266783722719619966654052275604351944444276342240220787535604534378780208211792476151720049639423, .ok 0x0350000000000000),
+  (9979201547673599058281863565184192830337256302177287707512736212186059459344820328924789827463178505446712234220962476219862189941967968303695858991424157101600028364755428382587688607221814935913266783722719619966654052275604351944444276342240220787535604534378780208211792476151720049639424, 1, .ok 0x7C90000000000000),
+  (-9979201547673599058281863565184192830337256302177287707512736212186059459344820328924789827463178505446712234220962476219862189941967968303695858991424157101600028364755428382587688607221814935913266783722719619966654052275604351944444276342240220787535604534378780208211792476151720049639424, 1, .ok 0xFC90000000000000),
+  (1, 9979201547673599058281863565184192830337256302177287707512736212186059459344820328924789827463178505446712234220962476219862189941967968303695858991424157101600028364755428382587688607221814935913266783722719619966654052275604351944444276342240220787535604534378780208211792476151720049639424, .ok 0x0350000000000000),
+  (9979201547673599058281863565184192830337256302177287707512736212186059459344820328924789827463178505446712234220962476219862189941967968303695858991424157101600028364755428382587688607221814935913266783722719619966654052275604351944444276342240220787535604534378780208211792476151720049639425, 1, .ok 0x7C90000000000000),
+  (-9979201547673599058281863565184192830337256302177287707512736212186059459344820328924789827463178505446712234220962476219862189941967968303695858991424157101600028364755428382587688607221814935913266783722719619966654052275604351944444276342240220787535604534378780208211792476151720049639425, 1, .ok 0xFC90000000000000),
+  (1, 9979201547673599058281863565184192830337256302177287707512736212186059459344820328924789827463178505446712234220962476219862189941967968303695858991424157101600028364755428382587688607221814935913266783722719619966654052275604351944444276342240220787535604534378780208211792476151720049639425, .ok 0x0350000000000000),
+  (19958403095347198116563727130368385660674512604354575415025472424372118918689640657849579654926357010893424468441924952439724379883935936607391717982848314203200056729510856765175377214443629871826533567445439239933308104551208703888888552684480441575071209068757560416423584952303440099278847, 1, .ok 0x7CA0000000000000),
+  (-19958403095347198116563727130368385660674512604354575415025472424372118918689640657849579654926357010893424468441924952439724379883935936607391717982848314203200056729510856765175377214443629871826533567445439239933308104551208703888888552684480441575071209068757560416423584952303440099278847, 1, .ok 0xFCA0000000000000),
+  (1, 19958403095347198116563727130368385660674512604354575415025472424372118918689640657849579654926357010893424468441924952439724379883935936607391717982848314203200056729510856765175377214443629871826533567445439239933308104551208703888888552684480441575071209068757560416423584952303440099278847, .ok 0x0340000000000000),
+  (19958403095347198116563727130368385660674512604354575415025472424372118918689640657849579654926357010893424468441924952439724379883935936607391717982848314203200056729510856765175377214443629871826533567445439239933308104551208703888888552684480441575071209068757560416423584952303440099278848, 1, .ok 0x7CA0000000000000),
+  (-19958403095347198116563727130368385660674512604354575415025472424372118918689640657849579654926357010893424468441924952439724379883935936607391717982848314203200056729510856765175377214443629871826533567445439239933308104551208703888888552684480441575071209068757560416423584952303440099278848, 1, .ok 0xFCA0000000000000),
+  (1, 19958403095347198116563727130368385660674512604354575415025472424372118918689640657849579654926357010893424468441924952439724379883935936607391717982848314203200056729510856765175377214443629871826533567445439239933308104551208703888888552684480441575071209068757560416423584952303440099278848, .ok 0x0340000000000000),
+  (19958403095347198116563727130368385660674512604354575415025472424372118918689640657849579654926357010893424468441924952439724379883935936607391717982848314203200056729510856765175377214443629871826533567445439239933308104551208703888888552684480441575071209068757560416423584952303440099278849, 1, .ok 0x7CA0000000000000),
+  (-19958403095347198116563727130368385660674512604354575415025472424372118918689640657849579654926357010893424468441924952439724379883935936607391717982848314203200056729510856765175377214443629871826533567445439239933308104551208703888888552684480441575071209068757560416423584952303440099278849, 1, .ok 0xFCA0000000000000),
+  (1, 19958403095347198116563727130368385660674512604354575415025472424372118918689640657849579654926357010893424468441924952439724379883935936607391717982848314203200056729510856765175377214443629871826533567445439239933308104551208703888888552684480441575071209068757560416423584952303440099278849, .ok 0x0340000000000000),
+  (89884656743115795386465259539451236680898848947115328636715040578866337902750481566354238661203768010560056939935696678829394884407208311246423715319737062188883946712432742638151109800623047059726541476042502884419075341171231440736956555270413618581675255342293149119973622969239858152417678164812112068607, 1, .ok 0x7FE0000000000000),
+  (-89884656743115795386465259539451236680898848947115328636715040578866337902750481566354238661203768010560056939935696678829394884407208311246423715319737062188883946712432742638151109800623047059726541476042502884419075341171231440736956555270413618581675255342293149119973622969239858152417678164812112068607, 1, .ok 0xFFE0000000000000),
+  (1, 89884656743115795386465259539451236680898848947115328636715040578866337902750481566354238661203768010560056939935696678829394884407208311246423715319737062188883946712432742638151109800623047059726541476042502884419075341171231440736956555270413618581675255342293149119973622969239858152417678164812112068607, .ok 0x0008000000000000),
+  (89884656743115795386465259539451236680898848947115328636715040578866337902750481566354238661203768010560056939935696678829394884407208311246423715319737062188883946712432742638151109800623047059726541476042502884419075341171231440736956555270413618581675255342293149119973622969239858152417678164812112068608, 1, .ok 0x7FE0000000000000),
+  (-89884656743115795386465259539451236680898848947115328636715040578866337902750481566354238661203768010560056939935696678829394884407208311246423715319737062188883946712432742638151109800623047059726541476042502884419075341171231440736956555270413618581675255342293149119973622969239858152417678164812112068608, 1, .ok 0xFFE0000000000000),
+  (1, 89884656743115795386465259539451236680898848947115328636715040578866337902750481566354238661203768010560056939935696678829394884407208311246423715319737062188883946712432742638151109800623047059726541476042502884419075341171231440736956555270413618581675255342293149119973622969239858152417678164812112068608, .ok 0x0008000000000000),
+  (89884656743115795386465259539451236680898848947115328636715040578866337902750481566354238661203768010560056939935696678829394884407208311246423715319737062188883946712432742638151109800623047059726541476042502884419075341171231440736956555270413618581675255342293149119973622969239858152417678164812112068609, 1, .ok 0x7FE0000000000000),
+  (-89884656743115795386465259539451236680898848947115328636715040578866337902750481566354238661203768010560056939935696678829394884407208311246423715319737062188883946712432742638151109800623047059726541476042502884419075341171231440736956555270413618581675255342293149119973622969239858152417678164812112068609, 1, .ok 0xFFE0000000000000),
+  (1, 89884656743115795386465259539451236680898848947115328636715040578866337902750481566354238661203768010560056939935696678829394884407208311246423715319737062188883946712432742638151109800623047059726541476042502884419075341171231440736956555270413618581675255342293149119973622969239858152417678164812112068609, .ok 0x0008000000000000),
+  (1, 22471164185778948846616314884862809170224712236778832159178760144716584475687620391588559665300942002640014234983924169707348721101802077811605928829934265547220986678108185659537777450155761764931635369010625721104768835292807860184239138817603404645418813835573287279993405742309964538104419541203028017152, .ok 0x0020000000000000),
+  (3, 22471164185778948846616314884862809170224712236778832159178760144716584475687620391588559665300942002640014234983924169707348721101802077811605928829934265547220986678108185659537777450155761764931635369010625721104768835292807860184239138817603404645418813835573287279993405742309964538104419541203028017152, .ok 0x0038000000000000),
+  (-1, 22471164185778948846616314884862809170224712236778832159178760144716584475687620391588559665300942002640014234983924169707348721101802077811605928829934265547220986678108185659537777450155761764931635369010625721104768835292807860184239138817603404645418813835573287279993405742309964538104419541203028017152, .ok 0x8020000000000000),
+  (9007199254740993, 101201126653655309176247673359458653524778324882071059178450679013715169783997673445980191850718562247593538932158405955694904368692896738433506699970369254960758712138283180682233453871046608170619883839236372534281003741712346349309051677824579778170405028256179384776166707307615251266093163754323003131653853870546747392, .ok 0x0030000000000000),
+  (4503599627370497, 202402253307310618352495346718917307049556649764142118356901358027430339567995346891960383701437124495187077864316811911389808737385793476867013399940738509921517424276566361364466907742093216341239767678472745068562007483424692698618103355649159556340810056512358769552333414615230502532186327508646006263307707741093494784, .ok 0x0010000000000001),
+  (1, 44942328371557897693232629769725618340449424473557664318357520289433168951375240783177119330601884005280028469967848339414697442203604155623211857659868531094441973356216371319075554900311523529863270738021251442209537670585615720368478277635206809290837627671146574559986811484619929076208839082406056034304, .ok 0x0010000000000000),
+  (3, 44942328371557897693232629769725618340449424473557664318357520289433168951375240783177119330601884005280028469967848339414697442203604155623211857659868531094441973356216371319075554900311523529863270738021251442209537670585615720368478277635206809290837627671146574559986811484619929076208839082406056034304, .ok 0x0028000000000000),
+  (-1, 44942328371557897693232629769725618340449424473557664318357520289433168951375240783177119330601884005280028469967848339414697442203604155623211857659868531094441973356216371319075554900311523529863270738021251442209537670585615720368478277635206809290837627671146574559986811484619929076208839082406056034304, .ok 0x8010000000000000),
+  (9007199254740993, 202402253307310618352495346718917307049556649764142118356901358027430339567995346891960383701437124495187077864316811911389808737385793476867013399940738509921517424276566361364466907742093216341239767678472745068562007483424692698618103355649159556340810056512358769552333414615230502532186327508646006263307707741093494784, .ok 0x0020000000000000),
+  (4503599627370497, 404804506614621236704990693437834614099113299528284236713802716054860679135990693783920767402874248990374155728633623822779617474771586953734026799881477019843034848553132722728933815484186432682479535356945490137124014966849385397236206711298319112681620113024717539104666829230461005064372655017292012526615415482186989568, .ok 0x0008000000000000),
+  (1, 89884656743115795386465259539451236680898848947115328636715040578866337902750481566354238661203768010560056939935696678829394884407208311246423715319737062188883946712432742638151109800623047059726541476042502884419075341171231440736956555270413618581675255342293149119973622969239858152417678164812112068608, .ok 0x0008000000000000),
+  (3, 89884656743115795386465259539451236680898848947115328636715040578866337902750481566354238661203768010560056939935696678829394884407208311246423715319737062188883946712432742638151109800623047059726541476042502884419075341171231440736956555270413618581675255342293149119973622969239858152417678164812112068608, .ok 0x0018000000000000),
+  (-1, 89884656743115795386465259539451236680898848947115328636715040578866337902750481566354238661203768010560056939935696678829394884407208311246423715319737062188883946712432742638151109800623047059726541476042502884419075341171231440736956555270413618581675255342293149119973622969239858152417678164812112068608, .ok 0x8008000000000000),
+  (9007199254740993, 404804506614621236704990693437834614099113299528284236713802716054860679135990693783920767402874248990374155728633623822779617474771586953734026799881477019843034848553132722728933815484186432682479535356945490137124014966849385397236206711298319112681620113024717539104666829230461005064372655017292012526615415482186989568, .ok 0x0010000000000000),
+  (4503599627370497, 809609013229242473409981386875669228198226599056568473427605432109721358271981387567841534805748497980748311457267247645559234949543173907468053599762954039686069697106265445457867630968372865364959070713890980274248029933698770794472413422596638225363240226049435078209333658460922010128745310034584025053230830964373979136, .ok 0x0004000000000000),
+  (1, 179769313486231590772930519078902473361797697894230657273430081157732675805500963132708477322407536021120113879871393357658789768814416622492847430639474124377767893424865485276302219601246094119453082952085005768838150682342462881473913110540827237163350510684586298239947245938479716304835356329624224137216, .ok 0x0004000000000000),
+  (3, 179769313486231590772930519078902473361797697894230657273430081157732675805500963132708477322407536021120113879871393357658789768814416622492847430639474124377767893424865485276302219601246094119453082952085005768838150682342462881473913110540827237163350510684586298239947245938479716304835356329624224137216, .ok 0x000C000000000000),
+  (-1, 179769313486231590772930519078902473361797697894230657273430081157732675805500963132708477322407536021120113879871393357658789768814416622492847430639474124377767893424865485276302219601246094119453082952085005768838150682342462881473913110540827237163350510684586298239947245938479716304835356329624224137216, .ok 0x8004000000000000),
+  (9007199254740993, 809609013229242473409981386875669228198226599056568473427605432109721358271981387567841534805748497980748311457267247645559234949543173907468053599762954039686069697106265445457867630968372865364959070713890980274248029933698770794472413422596638225363240226049435078209333658460922010128745310034584025053230830964373979136, .ok 0x0008000000000000),
+  (4503599627370497, 1619218026458484946819962773751338456396453198113136946855210864219442716543962775135683069611496995961496622914534495291118469899086347814936107199525908079372139394212530890915735261936745730729918141427781960548496059867397541588944826845193276450726480452098870156418667316921844020257490620069168050106461661928747958272, .ok 0x0002000000000000),
+  (1, 101201126653655309176247673359458653524778324882071059178450679013715169783997673445980191850718562247593538932158405955694904368692896738433506699970369254960758712138283180682233453871046608170619883839236372534281003741712346349309051677824579778170405028256179384776166707307615251266093163754323003131653853870546747392, .ok 0x0000000000000002),
+  (3, 101201126653655309176247673359458653524778324882071059178450679013715169783997673445980191850718562247593538932158405955694904368692896738433506699970369254960758712138283180682233453871046608170619883839236372534281003741712346349309051677824579778170405028256179384776166707307615251266093163754323003131653853870546747392, .ok 0x0000000000000006),
+  (-1, 101201126653655309176247673359458653524778324882071059178450679013715169783997673445980191850718562247593538932158405955694904368692896738433506699970369254960758712138283180682233453871046608170619883839236372534281003741712346349309051677824579778170405028256179384776166707307615251266093163754323003131653853870546747392, .ok 0x8000000000000002),
+  (9007199254740993, 455769356286876421213391376429838886925099892492896311359073203585443629295319008244476198689326433780162368020962991167191110613607139517741900808291216386005762763108913764753265553690611976382226145357950239793122692242822302122332514317008108070827274337186476319071835298862424880252130670164301449339557783552772064084296510505746432, .ok 0x0000000000000004),
+  (4503599627370497, 911538712573752842426782752859677773850199784985792622718146407170887258590638016488952397378652867560324736041925982334382221227214279035483801616582432772011525526217827529506531107381223952764452290715900479586245384485644604244665028634016216141654548674372952638143670597724849760504261340328602898679115567105544128168593021011492864, .ok 0x0000000000000001),
+  (1, 202402253307310618352495346718917307049556649764142118356901358027430339567995346891960383701437124495187077864316811911389808737385793476867013399940738509921517424276566361364466907742093216341239767678472745068562007483424692698618103355649159556340810056512358769552333414615230502532186327508646006263307707741093494784, .ok 0x0000000000000001),
+  (3, 202402253307310618352495346718917307049556649764142118356901358027430339567995346891960383701437124495187077864316811911389808737385793476867013399940738509921517424276566361364466907742093216341239767678472745068562007483424692698618103355649159556340810056512358769552333414615230502532186327508646006263307707741093494784, .ok 0x0000000000000003),
+  (4503599627370497, 1823077425147505684853565505719355547700399569971585245436292814341774517181276032977904794757305735120649472083851964668764442454428558070967603233164865544023051052435655059013062214762447905528904581431800959172490768971289208489330057268032432283309097348745905276287341195449699521008522680657205797358231134211088256337186042022985728, .ok 0x0000000000000001),
+  (-1, 404804506614621236704990693437834614099113299528284236713802716054860679135990693783920767402874248990374155728633623822779617474771586953734026799881477019843034848553132722728933815484186432682479535356945490137124014966849385397236206711298319112681620113024717539104666829230461005064372655017292012526615415482186989568, .ok 0x8000000000000000),
+  (1, 809609013229242473409981386875669228198226599056568473427605432109721358271981387567841534805748497980748311457267247645559234949543173907468053599762954039686069697106265445457867630968372865364959070713890980274248029933698770794472413422596638225363240226049435078209333658460922010128745310034584025053230830964373979136, .ok 0x0000000000000000),
+  (9007199254740993, 3646154850295011369707131011438711095400799139943170490872585628683549034362552065955809589514611470241298944167703929337528884908857116141935206466329731088046102104871310118026124429524895811057809162863601918344981537942578416978660114536064864566618194697491810552574682390899399042017045361314411594716462268422176512674372084045971456, .ok 0x0000000000000001),
+  (3, 13582985290493858492773514283592667786034938469317445497485196697278130927542418487205392083207560592298578262953847383475038725543234929971155548342800628721885763499406390331782864144164680730766837160526223176512798435772129956553355286032203080380775759732320198985094884004069116123084147875437183658467465148948790552744165376, .ok 0x0000000000000000),
+  (4503599627370497, 122344654985694138944064787438411453618271627486881598100390795141839395592183916643573727876315943584631689013747018093088918016710072301300667233780421251372128945942961244106219566394031908799224105624283655844176235556149667397178096264312600045689799683939749527743249605207031303996226091417139854474925092466337669086529356236818834094292992, .ok 0x0000000000000000),
+  (-179769313486231580793728971405303415079934132710037826936173778980444968292764750946649017977587207096330286416692887910946555547851940402630657488671505820681908902000708383676273854845817711531764475730270069855571366959622842914819860834936475292719074168444365510704342711559699508093042880177904174497792, 1, .overflow true),
+  (-10000000000000000000000000000000000000000000000000000000000000000000000000000000000000000000000000000000000000000000000000000000000000000000000000000000000000000000000000000000000000000000000000000000000000000000000000000000000000000000000000000000000000000000000000000000000000000000000000000000000000000000000000000000000000000000000000000000000000000000000000000000000000000000000000000000000000000, 3, .overflow true),
+  (0, 7, .ok 0x0000000000000000),
+  (539307940458694742381186914215910245239802398130113480808521336941334904878294252839947053932761621288990859250078663732839666643555821207891972466014517462045726706002125151028821564537453134595293427190810209566714100878868528744459582504809425878157222505333096532113028134679098524279128640533712523493376, 3, .overflow false),
+  (-16311774369436801, 291996199527820493993034982764818644793166624463907835557068321145553610701355352736378419924311769585833107812710042067884077102168028031888170324462221708048127659159056956805303948303782641664, .ok 0x9AECF9BC76792A40),
+  (2175086325099980358093018473484047587902496566941308499684395674311510072788973538080163750082681835539746626665690489856371215460154374357222099700505586799318722977061255325356787137444742075623220575871533318145, 2, .ok 0x6C29D80FACC137CE),
+  (39197372752772192680230815730541079827262503300002967195513567363695924697726132360935847951203365939094948919561629593113863489791983866237143066616309601431269774432858638835910210358345728, 2, .ok 0x6771985305AD660A),
+  (29715341694231609, 1449201571131471879260756959099495254112097748639913124496463219294319678358585159201072662468220966735923856011813316441511904497891120370903590752550155280761367805558784, .ok 0x1FD1985305AD660A),
+  (-16749681688527955, 268435456, .ok 0xC18DC0DF9592A22A),
+  (13591799464069077623251366408780025924177257026818467875863452970629833757777945558897761708519050119666564201823640525568523936082248620546067896842821804538412781509632248681259445397754467418331194327041, 2, .ok 0x6A75ACF015A37B35),
+  (409315820245934532527902257856744024561507072188898451508358060657245043026447940847015049870699147560028908851185632873457916051456, 2, .ok 0x5B32740159653756),
+  (31164592346319873, 14352197199191432920745655472856366028873725925649997933301022120946251073193018297698472096119772098682868915210323987720638157725762913823367347787967121393981570702985967540894299667027524403068928, .ok 0x1A02740159653756),
+  (-13385798548658257, 256, .ok 0xC2C7C7280BC38C28),
+  (70240583242943300377611687176164771684250642550464216571026417529800734372405334313036655190042364217972838411253359330352079848103685375875371286685339604117235153859948747991104990103967465579143751120928936410370879911914602688694528146294238221068106849843677579194667922079350785, 2, .ok 0x7ACE3B21474F7D5C),
+  (153519998893853329629018288657657820378847600727222565399921489951353554079614028619943705842713523258465309221048482711839631623884323160498873157723462442912042659580357154894796279650758059809796183057600906723213439245097269807628251283062784, 2, .ok 0x72C67BD619BD686A),
+  (37971653836173951, 39793902218243726053047405127712893904399233796828453605913662199057024201784429161734547118772150172749741004747599756274527516239946083899869770535548716958649697752167159175145109797357463078418468243729169462439839167301161982089908064547469962053053983590781832964145167980671238641848089478819873999416401803560909822492672, .ok 0x0000002CF7AC337B),
+  (-11970329354233819, 121416805764108066932466369176469931665150427440758720078238275608681517825325531136, .ok 0xB2054379BE8073EE),
+  (282313370027404550178743500763911010526615228053186058280356865600823551267005873326835304539691267424212730880627754274599742510232687803208757255918047540952865469999584504077006586291724432818580847715641199505123120647101119774949087985532929, 2, .ok 0x72D4AC4E46E6E677),
+  (77608465876668003976012501020533694254566231224938946489928832500391266274694208283548168477510189911895654036904575725177574035939483310260901781590414778078918014327615365525965464202325962790062266408374257326142706891707746657140240916665250965492118910660051636630742110306304, 2, .ok 0x7A311A12EDD05A72),
+  (28882459234016937, 5121035084451728082493326175273925988207174391538617467184325999434780598643941430928459930269353695290570171335756728662442599670363672381719057448190077475401081021066763180899644123580273170991845132392360910321938494492781922271613857824768, .ok 0x10C11A12EDD05A72),
+  (-17893272187058573, 156764265941034957982331212844852467344711417043899710759469297619722251722129607859661177881884230709880082871203965476543290384119266386721367084105368877945996036265148061460008137163052639879920877568, .ok 0x991FC8EB0A4A1CC6),
+  (19017437723921355632177104931939471112151986899403298639755188360127335660635067467061761701704683717204696603445801636136944518602987001540534121361090846775327169169806234061928220718817702842480004116041929759041895796517415944193, 2, .ok 0x70187FB343E18962),
+  (15745420933504991405907763064702611128077661704168122370458223116284282919939502128947499021509189356285098199802531732453394193591002282406063440905684802553284041561404018830268187181099128003005798866205264188030179428973501593514618304657717315192479408268446996355774008612142186496, 2, .ok 0x7B4A78B3878B2678),
+  (44706371177998029, 30260740758830960035030302796910295402301239759717463040984289334460714320509857749566156483751615212139490296555634688, .ok 0x2ACA78B3878B2678),
+  (-15146762785178935, 3138550867693340381917894711603833208051177722232017256448, .ok 0xB75AE7F343A7629C),
+  (979019472613699999173273708047293010535939106308190174312442911390514962405967202895826432769758362658792293279264934013499757569614076206052684741800586058384133661248989419016086087302419232083645193843143054685712754279460764416664625424168230655811023616815798469519749414913, 2, .ok 0x79CB9D4822F33FCD),
+  (23606244334268313493793729567685010110257608586499158561485680414493576884933796343375106781788940871342516960679191633435076919436195978669262755956134300843245568, 2, .ok 0x61CA3C494612851E),
+  (44307808802250417, 118842243771396506390315925504, .ok 0x3D5A3C494612851E),
+  (-13711857443813385, 673297395398191808926846705008656469190443494761366254015779955592797715750026345230549316643531321757053820013590811867266487328023526894480360290643440748794268629904440908568532961009193307810725536222180016128, .ok 0x97185B6E4C131C04),
+  (309479017863568785200551244899920836779850381936653808492785385166679888174558309476262158200259404103681, 2, .ok 0x559145A1F80A820D),
+  (4916911819150185, 404804506614621236704990693437834614099113299528284236713802716054860679135990693783920767402874248990374155728633623822779617474771586953734026799881477019843034848553132722728933815484186432682479535356945490137124014966849385397236206711298319112681620113024717539104666829230461005064372655017292012526615415482186989568, .ok 0x0008BBF3DF2FA9B4),
+  (7058218380527267, 404804506614621236704990693437834614099113299528284236713802716054860679135990693783920767402874248990374155728633623822779617474771586953734026799881477019843034848553132722728933815484186432682479535356945490137124014966849385397236206711298319112681620113024717539104666829230461005064372655017292012526615415482186989568, .ok 0x000C89B4C3A8C352),
+  (633223643603645, 404804506614621236704990693437834614099113299528284236713802716054860679135990693783920767402874248990374155728633623822779617474771586953734026799881477019843034848553132722728933815484186432682479535356945490137124014966849385397236206711298319112681620113024717539104666829230461005064372655017292012526615415482186989568, .ok 0x00011FF4EF2B915E),
+  (1329294735070389, 404804506614621236704990693437834614099113299528284236713802716054860679135990693783920767402874248990374155728633623822779617474771586953734026799881477019843034848553132722728933815484186432682479535356945490137124014966849385397236206711298319112681620113024717539104666829230461005064372655017292012526615415482186989568, .ok 0x00025C7E463E2A5A),
+  (5936079504669471, 404804506614621236704990693437834614099113299528284236713802716054860679135990693783920767402874248990374155728633623822779617474771586953734026799881477019843034848553132722728933815484186432682479535356945490137124014966849385397236206711298319112681620113024717539104666829230461005064372655017292012526615415482186989568, .ok 0x000A8B6A9B1DFD90),
+  (236295044641851, 404804506614621236704990693437834614099113299528284236713802716054860679135990693783920767402874248990374155728633623822779617474771586953734026799881477019843034848553132722728933815484186432682479535356945490137124014966849385397236206711298319112681620113024717539104666829230461005064372655017292012526615415482186989568, .ok 0x00006B745D195A1E),
+  (808088992713793, 404804506614621236704990693437834614099113299528284236713802716054860679135990693783920767402874248990374155728633623822779617474771586953734026799881477019843034848553132722728933815484186432682479535356945490137124014966849385397236206711298319112681620113024717539104666829230461005064372655017292012526615415482186989568, .ok 0x00016F79F0ADC620),
+  (3870708263863143, 404804506614621236704990693437834614099113299528284236713802716054860679135990693783920767402874248990374155728633623822779617474771586953734026799881477019843034848553132722728933815484186432682479535356945490137124014966849385397236206711298319112681620113024717539104666829230461005064372655017292012526615415482186989568, .ok 0x0006E031BF8C61B4),
+  (6971754839196471, 404804506614621236704990693437834614099113299528284236713802716054860679135990693783920767402874248990374155728633623822779617474771586953734026799881477019843034848553132722728933815484186432682479535356945490137124014966849385397236206711298319112681620113024717539104666829230461005064372655017292012526615415482186989568, .ok 0x000C62631553619C),
+  (6794907847563331, 404804506614621236704990693437834614099113299528284236713802716054860679135990693783920767402874248990374155728633623822779617474771586953734026799881477019843034848553132722728933815484186432682479535356945490137124014966849385397236206711298319112681620113024717539104666829230461005064372655017292012526615415482186989568, .ok 0x000C11F762448C22),
+  (1, 10, .ok 0x3FB999999999999A),
+  (15, 10, .ok 0x3FF8000000000000),
+  (1, 1000000, .ok 0x3EB0C6F7A0B5ED8D),
+  (14835360536046067085684833561387932186379416721588764506538, 17521215474218319179108382314153195724, .ok 0x4446F33847798025),
+  (-13176340805709903905255337751814740413229410743909799457232318081389242480725106589405768863378489003804426426784898765693726255027529751138450239982242491651482007580646852150844052050950050802548287905095865103232963744430561437934034741, 15305553841713917927243493981055827423355431407542602985136681721823504025038653201969429718948224348493237656461932953439370796984229237295924719129478143074043015938362659587046262432205837441370410271925833432496454374206, .ok 0xC30877C597938252),
+  (14255705922714494232426024103657616586002040878730018461811712348344948536959211414196407083248190253733404918873417393347672920704828581955195353851985838776937122235645141698280453016094096002110343317656722529735917932268884160078395799684635259971, 35994140948628095870511213452301066490476749932304890066839290661349684101131372112468319730951747777813558708851323074409574174240645103419623522352611295618548222897143088296842277349130438341132540489448846559310679850353097455852705527457401543050855153170853290192353271524203198455384850809467, .ok 0x35E285D4FF1721CD),
+  (10820862131613032731882942779, 1686328619849798661706257344983581911695145794123164850480446988594286710872808675971928147109688627998666202562464779880020943535332208752574539240327918792779732073068323710029293554068172813842900738588455758579393810855694171345575182958022891259158018826025972187082352847128, .ok 0x0BC785CB917AE0E8),
+  (-2303743498724289422371902747363341715557626, 25580522577486408908487029583033422602776400468293017285161908535579143611993440841366466005399095946937782187585751319558622459765069164134526964963710622617494815925335223769895078533049454517220818537725770468770852893121184993164977359996849290737787259157401287483954, .ok 0x90617A288EFACBB5),
+  (1426571693221798007411407706778008979040188459709178508700340586457646994760841, 5288102642764595320792780596371201879136485960477136575541984395676601745279932057954307223114257746600434063081384161521116482622904912948911962748297903388039591940585990055280762568604163568980907995962747640245531377248714818615035187586057647046876288835262, .ok 0x19D2572AB5D420BD),
+  (217248478269128691381687880336938269361017391467586693286172161399639394172489962870600414468886135544823509487338621257370726, 4435422878982935543871792754014437155867653363107567790924958080768823925249437931608242591860866872174968668531949786674926403517325550267207877565454828299563549871597121175491439715786161507888481624753685434180643370046847874602665278797204416309019063473466104512352844889635591853318926900733, .ok 0x1C283A88C77CFEB5),
+  (109708502065, 35173946513267601482429509402500620607680317618556959266484586033889837696697347414731237561230100156823603270368125969525595913990616, .ok 0x26807EAC15B2A785),
+  (-13474442035260552594309536249975069896188315162509946442881485613834647779433832552908304285627401323042400305197767005014574630286204400979512584374321893466051691972483520489245, 2275355450183829366236057337136503770392386283830525873050520575548415198894480695907840033013140871843667379868172260382720876772319339372809056657903603710913602149201860340012548525762586413960093102798506238, .ok 0xB93EBF9054D2E469),
+  (-21998827711938412950470037032797800366200134902952600082268084279000220633899384344716352544533999721012511314374222597416692129148389731653828969837773968858199310476889091014110313822980707677695907407694040775207081, 1587746374914423830046597917809421293365054962246823856469139281582829882061120423066081056551447339280125872538894556296018815176017804955348265034305819971233078293494839044319738977639082870294255057595306183088858293417302367539975623049546522893148144565497, .ok 0xB6D3C66A2D92097B),
+  (515468171434893995270550523208991123858697415969563000527826320803511913880644679117733300075071598621806305517313032956772857269615131788289700227253795789269647415, 1325365092564003792277339481773000445593793870544835274065257255739624061473134938013447796246248766030247649398650194997563387156103512939875670481863482381002959780732702885186798430329762983756340424824773346018106133239709529737699013342845819045100495014762727714658993904419442784707073770, .ok 0x251140F8374EA30F),
+  (-29013349225545905921753283982809454509627781, 2202032887822190505273096268851492980078932657824618395723413793344122864068547609232383147911618375763212046004747602220779336850021574, .ok 0xACDB7BC97B72A1CC),
+  (-279987408669979270251374806836477861834536524565816920737652908048472045736059541853595247792232291358112459876938842847553345523347914081753321913450163402765837128140999782422628442687704119299031219367961217153199950682137984892291033148024266418624191850354453101302163641094019084841256101457924280801, 11060254235601880498465113354788595306839089150919773844662284037235704545781402066537535271536069601441319473083186037507611223428051598067997951730606029946181743140334687689043073039904000672701841948427568227122247523810289895332198043371979825024916534395563184555172774598462153818331417072312358039598447578, .ok 0xBE5B2E76226B0EAA),
+  (1354575030131259798370589814088904808916205930881794427923083377408958883908861585605929633018960234355612618938047327630526131978661215358700832180964008005707233953376862168968004614191386742408667499468745781701225983381562031596117, 16330870572346473339000973591133287063311625509704155779814698658396166565264354792655516283339788088581821827656642106519046610513490721275130860933037077180944303375328920398389741869405810825444848, .ok 0x472FF31320767654),
+  (-139123317494516718263308044662866889981257045623589282630236783804675745471079705534477727570105562386313504976145288167650287754706633953290932332221058839701969537906518892174598254168429632718755669360310650707606016030829990001495569212788477935377503179852671098223627764995931677272264499626300630, 1018067087526868486694777627993489142700008558025471732429419579155174774927752895665540364323065401426448906, .ok 0xE83DF3B86BDF0177),
+  (57801759151825648226681385308455844882895353711366217239197540701257778243802010335856679269124688355778992677982904688304003858180817234271639885301387912750168, 1151109597464167503812156, .ok 0x5C514577510EF5ED),
+  (-100327756007402154237357599185837326014951506777312784793407651421601853214885713126071650908093171895458766849110268622700138418653528038213932, 20984280958317053648168126353285801806049047341176339045239770478532345132405331523808280899175509349414078659366991710950933388680754354055425365624120671673290501916891221849369947282015787605124034473753336051034025964023726771708958405537935372675474988967793367072492289477320869058279103509, .ok 0xA05006A71AF3F0A3),
+  (30509297095078287037, 37101406857080908865413, .ok 0x3F4AF222B390772A),
+  (-48815059336663046659125673693454113023404998156794825331304556002110225377627113063856318048149068545321934364102951034696684088014673508205308156622323951562113077119933657316323657862736245207372, 32247119966161319985429753354072782697621571646205559684221063768456324430664293799271595215844252499104474441092929386972689, .ok 0xCEEB6AA795F805C6),
+  (-1397994598299605515362884716581804427592651411752236770196371, 28929795535388336339952236314792333837663863773867173714683315409353062144244025032227634570801814857263724140042163632158909559926028770342, .ok 0xAF76EB4F01739E70)]
+
+example : tests.all (fun t => decide (roundRat t.1 t.2.1 = t.2.2)) = true := by decide +kernel
 
 end Yaql.Props.FloatRound
